@@ -76,4 +76,15 @@ CHECKS = {
                 "and up to 5000, integer boxes < 2^14. Hook: rtree.VerifDump (build tag verif).",
         "technique": "TLA+ step-machine model checked exhaustively by TLC + TLC trace validation of recorded search histories (state variables per history)",
     },
+    "C07": {
+        "text": "TWKB.tla is a reader and a writer for the TWKB format written from the format specification (varint / zig-zag / delta "
+                "coding with a running reference point, headers, sub-geometries); TLC proves reader(writer(g,opts)) = g with truthful "
+                "size/bbox/id headers for a family of small geometries x all option subsets; the specification's encodings are replayed "
+                "into the real UnmarshalTWKB, and every recorded MarshalTWKB output of the real library is read by the specification's "
+                "reader and must give the original rounded to the precision, truthful headers, and agree with the library's own decode "
+                "and header-only readers.",
+        "note": TLCNOTE + "TLC side bounds |k*10^(p-q)| < 2^27 (property: 2^40); decimal ties may round either way; cases where "
+                "rounding collapses a ring are outside the property's domain and skipped by a guard in the specification.",
+        "technique": "TLA+ reference reader/writer machines (TLC exhaustive round trip) + TLC-generated encodings replayed + TLC trace validation of recorded encodings",
+    },
 }
